@@ -23,12 +23,13 @@ type rtCase struct {
 	Compress bool
 	Override bool   // ImageWithExportRef names the image differently
 	ByDigest bool   // the source reference carries the digest instead of the tag
+	Pinned   bool   // the source reference (and an overriding export reference) carries the tag and the digest
 	Strict   bool   // registry targets refuse manifests whose references are missing
 	Pre      string // empty | partial: the target already holds some blobs / complete sub-images of the graph | stale-tag: the import's tag already names another complete image
 }
 
 func (c rtCase) key() string {
-	return fmt.Sprintf("%s|%s|%s>%s|gz=%t|ovr=%t|dig=%t|strict=%t|pre=%s|big=%t", c.Shape.Key(), c.Alg, c.Src, c.Tgt, c.Compress, c.Override, c.ByDigest, c.Strict, c.Pre, c.Shape.MaxBlob > 100000)
+	return fmt.Sprintf("%s|%s|%s>%s|gz=%t|ovr=%t|dig=%t|strict=%t|pre=%s|big=%t|pin=%t", c.Shape.Key(), c.Alg, c.Src, c.Tgt, c.Compress, c.Override, c.ByDigest, c.Strict, c.Pre, c.Shape.MaxBlob > 100000, c.Pinned)
 }
 
 // exportShape draws a graph shape for export / import: own content only (no referrers, no
@@ -50,6 +51,7 @@ func randomRT(rng *rand.Rand, i int) rtCase {
 		c.Alg = "sha512"
 	}
 	c.Pre = []string{"empty", "empty", "empty", "partial", "stale-tag"}[rng.Intn(5)]
+	c.Pinned = !c.ByDigest && rng.Intn(5) == 0
 	if rng.Intn(25) == 0 {
 		c.Shape.MaxBlob = 300000 + rng.Intn(900000) // a few large blobs: multi-block tar members, larger uploads
 		c.Shape.Platforms = 1 + c.Shape.Platforms%2
@@ -68,6 +70,10 @@ func randomRT(rng *rand.Rand, i int) rtCase {
 		c.Shape.Kind, c.Shape.Family, c.Shape.BlobEntry, c.ByDigest = "index", "oci", true, false
 	case 5:
 		c.Shape.Kind, c.Shape.Family, c.Override, c.ByDigest, c.Compress = "image", "docker", true, false, true
+	case 6:
+		c.Shape.Kind, c.Shape.Family, c.Src, c.Tgt, c.ByDigest, c.Override, c.Pinned = "image", "oci", "reg", "reg", false, false, true
+	case 7:
+		c.Shape.Kind, c.Shape.Family, c.Src, c.Tgt, c.ByDigest, c.Override, c.Pinned = "image", "oci", "reg", "dir", false, true, true
 	}
 	if c.Override {
 		c.ByDigest = false
@@ -161,6 +167,11 @@ func runRoundTrip(run *runT, c rtCase) {
 		srcRef = src.Ref(top.Digest)
 		wantTag = ""
 	}
+	if c.Pinned {
+		// name:tag@digest - what a platform-resolving caller builds; the archive is still named by the tag
+		srcRef = srcRef.AddDigest(top.Digest)
+		run.Count("exports_by_pinned_reference", 1)
+	}
 	var opts []regclient.ImageOpts
 	if c.Compress {
 		opts = append(opts, regclient.ImageWithExportCompress())
@@ -171,8 +182,11 @@ func runRoundTrip(run *runT, c rtCase) {
 			run.Inconclusive("harness: override reference does not parse: " + err.Error())
 			return
 		}
-		opts = append(opts, regclient.ImageWithExportRef(or))
 		wantTag = or.Tag
+		if c.Pinned {
+			or = or.AddDigest(top.Digest)
+		}
+		opts = append(opts, regclient.ImageWithExportRef(or))
 	}
 	cls := graphClass(g, g.Top)
 	wit := func(extra map[string]any) map[string]any {
